@@ -506,6 +506,15 @@ extern "C" int LLVMFuzzerTestOneInput(const uint8_t *data, size_t size) {
 #endif
 #else
 // _exit: the verdict is the exit status; sanitizer at-exit hooks (TSan's "reported N warnings" status) must not replace it
-int main(int argc, char **argv) { int rc = verif::engine_main(argc, argv); fflush(stdout); fflush(stderr); _exit(rc); }
+#ifdef VERIF_COVERAGE
+extern "C" int __llvm_profile_write_file(void);      // tools/coverage.sh: the profile is normally written by an atexit handler, which _exit skips
+#endif
+int main(int argc, char **argv) {
+	int rc = verif::engine_main(argc, argv); fflush(stdout); fflush(stderr);
+#ifdef VERIF_COVERAGE
+	__llvm_profile_write_file();
+#endif
+	_exit(rc);
+}
 #endif
 #endif // VERIF_NO_MAIN
